@@ -414,6 +414,10 @@ impl<S: Storage> Replica<S> {
             .sync(server, avoid_snapshots)
             .await
             .context("Failed to synchronize with server")?;
+
+        // Changes pulled from the server may alter statuses and dependencies, so the cached
+        // dependency map may now be invalid, do not retain it.
+        self.depmap = None;
         self.rebuild_working_set(false)
             .await
             .context("Failed to rebuild working set after sync")?;
